@@ -1,19 +1,772 @@
-//! Engine `crash` — not built yet (stub).
+//! Engine `crash` (C01, C02, C08) — judge mode.
+//!
+//! One case = one workload over the public API. The workload is executed ONCE with the I/O tap installed;
+//! the tap yields the ordered list of file mutations, and the harness inserts `call`/`ack` markers around
+//! every call. For each selected crash point k (a prefix of the mutation list) the two files are rebuilt
+//! in a fresh directory, `Database::open` is run on them, every table is read back, the database is dropped
+//! (clean close), opened again and read again, and a probe statement is executed. The observation line
+//! lists, per group of crash points with identical outcome: which units were acknowledged, which one was
+//! in flight, and what the recovered database contains. The Lean model judges the observation.
+//!
+//! Case syntax:
+//!   crashNN cache=<pages> | op ; op ; …          NN ∈ {01,02,08} selects the judged property
+//!   ops:  crt tN | drp tN | ins tN id v | upd tN id v | del tN id | flush | vac
+//!         batch op , op , …                       (Database::execute_batch)
+//!         sK:begin | sK:<dml op> | sK:commit | sK:rollback | sK:drop
+//! Observation syntax:
+//!   run=<r1,r2,…> | k=<a>-<b> acked=<u,…> infl=<u|-> open=<ok|fail:<class>|panic> T=<t1:1=10,2=20/t2:-absent/…>
+//!        again=<same|diff|fail> probe=<ok|fail> | k=… | trace=<abstract event string>
 use super::{Case, Engine, Tier};
 use crate::rng::Rng;
+use axmosdb::verif::iotap::{self, IoEvent};
+use axmosdb::runtime::QueryResult;
+use axmosdb::{DBConfig, Database};
+use std::collections::BTreeMap;
+use std::path::{Path, PathBuf};
+use std::sync::atomic::{AtomicU64, Ordering};
 
 pub struct CrashEngine;
 
-impl Engine for CrashEngine {
-    fn gen_cases(&self, _rng: &mut Rng, _tier: Tier) -> Vec<Case> {
-        Vec::new()
+pub fn generated() -> Option<(&'static str, String)> {
+    None
+}
+
+static COUNTER: AtomicU64 = AtomicU64::new(0);
+
+fn scratch_dir(tag: &str) -> PathBuf {
+    let n = COUNTER.fetch_add(1, Ordering::SeqCst);
+    let d = std::env::temp_dir().join(format!("axv-crash-{}-{}-{}", std::process::id(), tag, n));
+    let _ = std::fs::remove_dir_all(&d);
+    std::fs::create_dir_all(&d).unwrap();
+    d
+}
+
+#[derive(Clone, Debug)]
+enum Dml {
+    Crt(String),
+    Drp(String),
+    Ins(String, i64, i64),
+    Upd(String, i64, i64),
+    Del(String, i64),
+}
+
+impl Dml {
+    fn sql(&self) -> String {
+        match self {
+            Dml::Crt(t) => format!("CREATE TABLE {} (id BIGINT, v INT)", t),
+            Dml::Drp(t) => format!("DROP TABLE {}", t),
+            Dml::Ins(t, id, v) => format!("INSERT INTO {} VALUES ({}, {})", t, id, v),
+            Dml::Upd(t, id, v) => format!("UPDATE {} SET v = {} WHERE id = {}", t, v, id),
+            Dml::Del(t, id) => format!("DELETE FROM {} WHERE id = {}", t, id),
+        }
     }
-    fn exec(&mut self, _line: &str) -> String {
-        "unimplemented".into()
+    fn parse(ws: &[&str]) -> Option<Dml> {
+        Some(match ws {
+            ["crt", t] => Dml::Crt(t.to_string()),
+            ["drp", t] => Dml::Drp(t.to_string()),
+            ["ins", t, id, v] => Dml::Ins(t.to_string(), id.parse().ok()?, v.parse().ok()?),
+            ["upd", t, id, v] => Dml::Upd(t.to_string(), id.parse().ok()?, v.parse().ok()?),
+            ["del", t, id] => Dml::Del(t.to_string(), id.parse().ok()?),
+            _ => return None,
+        })
+    }
+    fn show(&self) -> String {
+        match self {
+            Dml::Crt(t) => format!("crt {}", t),
+            Dml::Drp(t) => format!("drp {}", t),
+            Dml::Ins(t, id, v) => format!("ins {} {} {}", t, id, v),
+            Dml::Upd(t, id, v) => format!("upd {} {} {}", t, id, v),
+            Dml::Del(t, id) => format!("del {} {}", t, id),
+        }
+    }
+    fn table(&self) -> &str {
+        match self {
+            Dml::Crt(t) | Dml::Drp(t) | Dml::Ins(t, _, _) | Dml::Upd(t, _, _) | Dml::Del(t, _) => t,
+        }
     }
 }
 
-/// Content of `lean/AxVerif/Generated/<Engine>.lean`, if this engine extracts constants from the code.
-pub fn generated() -> Option<(&'static str, String)> {
-    None
+#[derive(Clone, Debug)]
+enum Op {
+    Auto(Dml),
+    Batch(Vec<Dml>),
+    Flush,
+    Vacuum,
+    SBegin(u32),
+    SDml(u32, Dml),
+    SCommit(u32),
+    SRollback(u32),
+    SDrop(u32),
+}
+
+fn parse_op(s: &str) -> Option<Op> {
+    let s = s.trim();
+    let ws: Vec<&str> = s.split_whitespace().collect();
+    if ws.is_empty() {
+        return None;
+    }
+    if ws[0] == "flush" && ws.len() == 1 {
+        return Some(Op::Flush);
+    }
+    if ws[0] == "vac" && ws.len() == 1 {
+        return Some(Op::Vacuum);
+    }
+    if ws[0] == "batch" {
+        let rest = s.strip_prefix("batch")?;
+        let mut v = Vec::new();
+        for part in rest.split(',') {
+            let pw: Vec<&str> = part.split_whitespace().collect();
+            v.push(Dml::parse(&pw)?);
+        }
+        return Some(Op::Batch(v));
+    }
+    if let Some((sess, first)) = ws[0].split_once(':') {
+        let k: u32 = sess.strip_prefix('s')?.parse().ok()?;
+        return Some(match (first, ws.len()) {
+            ("begin", 1) => Op::SBegin(k),
+            ("commit", 1) => Op::SCommit(k),
+            ("rollback", 1) => Op::SRollback(k),
+            ("drop", 1) => Op::SDrop(k),
+            _ => {
+                let mut w2 = vec![first];
+                w2.extend_from_slice(&ws[1..]);
+                Op::SDml(k, Dml::parse(&w2)?)
+            }
+        });
+    }
+    Some(Op::Auto(Dml::parse(&ws)?))
+}
+
+fn show_op(op: &Op) -> String {
+    match op {
+        Op::Auto(d) => d.show(),
+        Op::Batch(ds) => format!("batch {}", ds.iter().map(|d| d.show()).collect::<Vec<_>>().join(" , ")),
+        Op::Flush => "flush".into(),
+        Op::Vacuum => "vac".into(),
+        Op::SBegin(k) => format!("s{}:begin", k),
+        Op::SDml(k, d) => format!("s{}:{}", k, d.show()),
+        Op::SCommit(k) => format!("s{}:commit", k),
+        Op::SRollback(k) => format!("s{}:rollback", k),
+        Op::SDrop(k) => format!("s{}:drop", k),
+    }
+}
+
+fn table_names(ops: &[Op]) -> Vec<String> {
+    let mut v: Vec<String> = Vec::new();
+    let mut add = |d: &Dml| {
+        if matches!(d, Dml::Crt(_)) && !v.contains(&d.table().to_string()) {
+            v.push(d.table().to_string());
+        }
+    };
+    for op in ops {
+        match op {
+            Op::Auto(d) | Op::SDml(_, d) => add(d),
+            Op::Batch(ds) => ds.iter().for_each(&mut add),
+            _ => {}
+        }
+    }
+    v.sort();
+    v
+}
+
+/// `t1:1=10,2=20/t2:absent/t3:` — rows sorted by (id, v); a table that cannot be read is `absent`.
+fn dump_tables(db: &Database, tables: &[String]) -> String {
+    let mut parts = Vec::new();
+    for t in tables {
+        match db.execute(&format!("SELECT id, v FROM {}", t)) {
+            Ok(QueryResult::Rows(rows)) => {
+                let mut rs: Vec<(i64, String)> = rows
+                    .iterrows()
+                    .map(|r| {
+                        let cells: Vec<String> = r.iter().map(|v| v.to_string()).collect();
+                        (cells[0].parse::<i64>().unwrap_or(i64::MIN), format!("{}={}", cells[0], cells[1]))
+                    })
+                    .collect();
+                rs.sort();
+                parts.push(format!("{}:{}", t, rs.into_iter().map(|x| x.1).collect::<Vec<_>>().join(",")));
+            }
+            Ok(_) => parts.push(format!("{}:weird", t)),
+            Err(e) => {
+                if std::env::var("AXH_DEBUG").is_ok() {
+                    eprintln!("select {} failed: {}", t, e);
+                }
+                parts.push(format!("{}:absent", t))
+            }
+        }
+    }
+    parts.join("/")
+}
+
+fn err_class(e: &axmosdb::DatabaseError) -> &'static str {
+    use axmosdb::DatabaseError::*;
+    match e {
+        Io(_) => "io",
+        Query(_) => "query",
+        Task(_) => "task",
+        AlreadyExists(_) => "exists",
+        NotFound(_) => "notfound",
+        RecoveryFailed(_) => "recovery",
+        Runtime(_) => "runtime",
+        TransactionManagement(_) => "txn",
+        Other(_) => "other",
+    }
+}
+
+/// The two files as of a prefix of the event list.
+#[derive(Default, Clone)]
+struct Image {
+    files: BTreeMap<String, Vec<u8>>,
+}
+
+fn fname(p: &Path) -> String {
+    p.file_name().unwrap().to_string_lossy().to_string()
+}
+
+impl Image {
+    fn apply(&mut self, e: &IoEvent) -> bool {
+        match e {
+            IoEvent::Create(p) => {
+                self.files.insert(fname(p), Vec::new());
+                true
+            }
+            IoEvent::Write { path, offset, data } => {
+                let f = self.files.entry(fname(path)).or_default();
+                let end = *offset as usize + data.len();
+                if f.len() < end {
+                    f.resize(end, 0);
+                }
+                f[*offset as usize..end].copy_from_slice(data);
+                true
+            }
+            IoEvent::SetLen { path, len } => {
+                let f = self.files.entry(fname(path)).or_default();
+                f.resize(*len as usize, 0);
+                true
+            }
+            IoEvent::Remove(p) => {
+                self.files.remove(&fname(p));
+                true
+            }
+            IoEvent::Sync(_) | IoEvent::Mark(_) => false,
+        }
+    }
+    fn write_to(&self, dir: &Path) {
+        for (n, d) in &self.files {
+            std::fs::write(dir.join(n), d).unwrap();
+        }
+    }
+}
+
+/// One character per I/O event: L/l = log write/sync, t = log truncate, D/d = database write/sync, T = database set_len.
+fn ev_char(e: &IoEvent) -> Option<char> {
+    match e {
+        IoEvent::Write { path, .. } => Some(if fname(path).ends_with(".log") { 'L' } else { 'D' }),
+        IoEvent::Sync(p) => Some(if fname(p).ends_with(".log") { 'l' } else { 'd' }),
+        IoEvent::SetLen { path, .. } => Some(if fname(path).ends_with(".log") { 't' } else { 'T' }),
+        IoEvent::Create(_) => Some('C'),
+        IoEvent::Remove(_) => Some('R'),
+        IoEvent::Mark(_) => None,
+    }
+}
+
+struct PointResult {
+    open: String,
+    tables: String,
+    again: String,
+    probe: String,
+}
+
+fn observe_image(img: &Image, tables: &[String], cfg: DBConfig) -> PointResult {
+    let dir = scratch_dir("img");
+    img.write_to(&dir);
+    let path = dir.join("test.db");
+    let mut res = PointResult { open: String::new(), tables: "-".into(), again: "-".into(), probe: "-".into() };
+    let r = std::panic::catch_unwind(std::panic::AssertUnwindSafe(|| Database::open(&path, cfg)));
+    match r {
+        Err(_) => res.open = "panic".into(),
+        Ok(Err(e)) => {
+            if std::env::var("AXH_DEBUG").is_ok() {
+                eprintln!("open failed: {}", e);
+            }
+            res.open = format!("fail:{}", err_class(&e))
+        }
+        Ok(Ok(db)) => {
+            res.open = "ok".into();
+            res.tables = dump_tables(&db, tables);
+            drop(db); // clean close (checkpoint)
+            let r2 = std::panic::catch_unwind(std::panic::AssertUnwindSafe(|| Database::open(&path, cfg)));
+            match r2 {
+                Ok(Ok(db2)) => {
+                    let t2 = dump_tables(&db2, tables);
+                    res.again = if t2 == res.tables { "same".into() } else { format!("diff:{}", t2) };
+                    // probe: the recovered database must be fully usable
+                    let ok = db2.execute("CREATE TABLE zz_probe (id BIGINT, v INT)").is_ok()
+                        && db2.execute("INSERT INTO zz_probe VALUES (1, 1)").is_ok()
+                        && matches!(db2.execute("SELECT id, v FROM zz_probe"), Ok(QueryResult::Rows(r)) if r.len() == 1);
+                    res.probe = if ok { "ok".into() } else { "fail".into() };
+                    drop(db2);
+                }
+                Ok(Err(e)) => res.again = format!("fail:{}", err_class(&e)),
+                Err(_) => res.again = "panic".into(),
+            }
+        }
+    }
+    let _ = std::fs::remove_dir_all(&dir);
+    res
+}
+
+fn run_case(line: &str) -> String {
+    let (head, body) = match line.split_once(" | ") {
+        Some(x) => x,
+        None => return "bad-op".into(),
+    };
+    let hw: Vec<&str> = head.split_whitespace().collect();
+    if hw.len() != 2 || !hw[0].starts_with("crash") {
+        return "bad-op".into();
+    }
+    let cache: usize = match hw[1].strip_prefix("cache=").and_then(|c| c.parse().ok()) {
+        Some(c) => c,
+        None => return "bad-op".into(),
+    };
+    let mut ops = Vec::new();
+    for part in body.split(" ; ") {
+        match parse_op(part) {
+            Some(o) => ops.push(o),
+            None => return "bad-op".into(),
+        }
+    }
+    let tables = table_names(&ops);
+    let cfg = DBConfig::builder().cache_size(cache).pool_size(2).build();
+
+    // ---- run the workload once under the tap
+    let dir = scratch_dir("run");
+    let path = dir.join("test.db");
+    iotap::install();
+    iotap::mark("create");
+    let db = match Database::create(&path, cfg) {
+        Ok(db) => db,
+        Err(_) => {
+            iotap::take();
+            return "obs create-failed".into();
+        }
+    };
+    iotap::mark("created");
+    let mut sessions: BTreeMap<u32, axmosdb::tcp::session::Session> = BTreeMap::new();
+    let mut results: Vec<String> = Vec::new();
+    for (i, op) in ops.iter().enumerate() {
+        iotap::mark(&format!("call {}", i));
+        let r: Result<(), String> = match op {
+            Op::Auto(d) => db.execute(&d.sql()).map(|_| ()).map_err(|_| "err".to_string()),
+            Op::Batch(ds) => {
+                let sqls: Vec<String> = ds.iter().map(|d| d.sql()).collect();
+                let refs: Vec<&str> = sqls.iter().map(|s| s.as_str()).collect();
+                db.execute_batch(&refs).map(|_| ()).map_err(|_| "err".to_string())
+            }
+            Op::Flush => db.flush().map_err(|_| "err".to_string()),
+            Op::Vacuum => db.vacuum().map(|_| ()).map_err(|_| "err".to_string()),
+            Op::SBegin(k) => match db.session() {
+                Ok(s) => {
+                    sessions.insert(*k, s);
+                    Ok(())
+                }
+                Err(_) => Err("err".into()),
+            },
+            Op::SDml(k, d) => match sessions.get_mut(k) {
+                Some(s) => s.execute(&d.sql()).map(|_| ()).map_err(|_| "err".to_string()),
+                None => Err("nosession".into()),
+            },
+            Op::SCommit(k) => match sessions.get_mut(k) {
+                Some(s) => {
+                    let r = s.commit_transaction().map_err(|_| "err".to_string());
+                    sessions.remove(k);
+                    r
+                }
+                None => Err("nosession".into()),
+            },
+            Op::SRollback(k) => match sessions.get_mut(k) {
+                Some(s) => {
+                    let r = s.abort_transaction().map_err(|_| "err".to_string());
+                    sessions.remove(k);
+                    r
+                }
+                None => Err("nosession".into()),
+            },
+            Op::SDrop(k) => {
+                sessions.remove(k);
+                Ok(())
+            }
+        };
+        let tag = match &r {
+            Ok(()) => "ok".to_string(),
+            Err(e) => e.clone(),
+        };
+        iotap::mark(&format!("ack {} {}", i, tag));
+        results.push(tag);
+    }
+    // what the live database holds at the end (sanity: must equal the model's final committed state)
+    let live = dump_tables(&db, &tables);
+    let events = iotap::take();
+    // the recording has stopped: whatever closing the sessions and the database writes now is not part of any image
+    drop(sessions);
+    drop(db);
+
+    // ---- crash points: every prefix after which the image differs from the previous one, once `create` returned
+    let mut points: Vec<usize> = Vec::new(); // k = number of events applied
+    let mut created_at = None;
+    for (i, e) in events.iter().enumerate() {
+        if let IoEvent::Mark(m) = e {
+            if m == "created" {
+                created_at = Some(i);
+            }
+        }
+    }
+    let created_at = created_at.unwrap_or(0);
+    for (i, e) in events.iter().enumerate() {
+        if i < created_at {
+            continue;
+        }
+        match e {
+            IoEvent::Write { .. } | IoEvent::SetLen { .. } | IoEvent::Create(_) | IoEvent::Remove(_) => points.push(i + 1),
+            _ => {}
+        }
+    }
+    points.push(created_at + 1);
+    points.push(events.len());
+    points.sort();
+    points.dedup();
+    // budget: at most MAXP points per case; keep every point adjacent to a sync / truncate / mark, sample the rest
+    let maxp: usize = std::env::var("AXH_CRASH_POINTS").ok().and_then(|s| s.parse().ok()).unwrap_or(90);
+    if points.len() > maxp {
+        let mut keep: Vec<usize> = Vec::new();
+        for &k in &points {
+            let near = |j: usize| -> bool {
+                j < events.len()
+                    && matches!(&events[j], IoEvent::Sync(_) | IoEvent::SetLen { .. } | IoEvent::Mark(_))
+            };
+            if near(k) || (k >= 2 && near(k - 2)) {
+                keep.push(k);
+            }
+        }
+        let mut h: u64 = 1469598103934665603;
+        for b in line.bytes() {
+            h = (h ^ b as u64).wrapping_mul(1099511628211);
+        }
+        let mut rng = Rng::new(h);
+        let mut rest: Vec<usize> = points.iter().cloned().filter(|k| !keep.contains(k)).collect();
+        rng.shuffle(&mut rest);
+        while keep.len() > maxp {
+            let i = rng.below(keep.len() as u64) as usize;
+            keep.swap_remove(i);
+        }
+        for k in rest {
+            if keep.len() >= maxp {
+                break;
+            }
+            keep.push(k);
+        }
+        keep.sort();
+        keep.dedup();
+        points = keep;
+    }
+
+    // ---- observe each crash point
+    let mut img = Image::default();
+    let mut applied = 0usize;
+    let mut acked: Vec<usize> = Vec::new();
+    let mut inflight: Option<usize> = None;
+    let mut groups: Vec<(usize, usize, String)> = Vec::new();
+    let mut call_at: usize = 0; // index of the latest `call` mark
+    for &k in &points {
+        while applied < k {
+            let e = &events[applied];
+            img.apply(e);
+            if let IoEvent::Mark(m) = e {
+                let mw: Vec<&str> = m.split_whitespace().collect();
+                match mw.as_slice() {
+                    ["call", i] => {
+                        inflight = i.parse().ok();
+                        call_at = applied;
+                    }
+                    ["ack", i, tag] => {
+                        inflight = None;
+                        if *tag == "ok" {
+                            acked.push(i.parse().unwrap());
+                        }
+                    }
+                    _ => {}
+                }
+            }
+            applied += 1;
+        }
+        let pr = observe_image(&img, &tables, cfg);
+        // phase of the call in flight: I/O done so far / all I/O of that call
+        let ph = if inflight.is_some() {
+            let done: String = events[call_at..k].iter().filter_map(ev_char).collect();
+            let mut all = String::new();
+            for e in &events[call_at + 1..] {
+                if let IoEvent::Mark(_) = e {
+                    break;
+                }
+                if let Some(c) = ev_char(e) {
+                    all.push(c);
+                }
+            }
+            format!("{}/{}", if done.is_empty() { "-" } else { &done }, if all.is_empty() { "-" } else { &all })
+        } else {
+            "-/-".to_string()
+        };
+        let desc = format!(
+            "acked={} infl={} ph={} open={} T={} again={} probe={}",
+            if acked.is_empty() { "-".to_string() } else { acked.iter().map(|u| u.to_string()).collect::<Vec<_>>().join(",") },
+            inflight.map(|u| u.to_string()).unwrap_or_else(|| "-".into()),
+            ph,
+            pr.open,
+            if pr.tables.is_empty() { "-".into() } else { pr.tables },
+            pr.again,
+            pr.probe
+        );
+        match groups.last_mut() {
+            Some((_, b, d)) if *d == desc => *b = k,
+            _ => groups.push((k, k, desc)),
+        }
+    }
+    let _ = std::fs::remove_dir_all(&dir);
+
+    // ---- abstract I/O trace for the protocol rules: L=log write, l=log sync, t=log truncate, D=db write, d=db sync,
+    //      (i / )i = call / ack of op i
+    let mut trace = String::new();
+    for e in &events {
+        match e {
+            IoEvent::Write { path, .. } => trace.push(if fname(path).ends_with(".log") { 'L' } else { 'D' }),
+            IoEvent::Sync(p) => trace.push(if fname(p).ends_with(".log") { 'l' } else { 'd' }),
+            IoEvent::SetLen { path, .. } => trace.push(if fname(path).ends_with(".log") { 't' } else { 'T' }),
+            IoEvent::Create(_) => trace.push('C'),
+            IoEvent::Remove(_) => trace.push('R'),
+            IoEvent::Mark(m) => {
+                let mw: Vec<&str> = m.split_whitespace().collect();
+                match mw.as_slice() {
+                    ["call", i] => trace.push_str(&format!("({}", i)),
+                    ["ack", i, tag] => trace.push_str(&format!("){}{}", i, if *tag == "ok" { "+" } else { "-" })),
+                    _ => {}
+                }
+            }
+        }
+    }
+    let mut out = format!("run={} live={}", results.join(","), if live.is_empty() { "-".into() } else { live });
+    for (a, b, d) in groups {
+        out.push_str(&format!(" | k={}-{} {}", a, b, d));
+    }
+    out.push_str(&format!(" ## points={} events={} trace={}", points.len(), events.len(), trace));
+    out
+}
+
+impl Engine for CrashEngine {
+    fn timeout_ms(&self) -> u64 {
+        25_000
+    }
+
+    fn exec(&mut self, line: &str) -> String {
+        run_case(line)
+    }
+
+    fn gen_cases(&self, rng: &mut Rng, tier: Tier) -> Vec<Case> {
+        let prop = std::env::var("AXH_PROP").unwrap_or_else(|_| "C01".into());
+        let head = match prop.as_str() {
+            "C02" => "crash02",
+            "C08" => "crash08",
+            _ => "crash01",
+        };
+        let n = if tier == Tier::Quick { 40 } else { 400 };
+        let mut cases = Vec::new();
+        for i in 0..n {
+            let (ops, tags, cache) = gen_workload(rng, head, i);
+            let line = format!("{} cache={} | {}", head, cache, ops.iter().map(show_op).collect::<Vec<_>>().join(" ; "));
+            let mut t: Vec<&str> = tags.iter().map(|s| s.as_str()).collect();
+            t.push("nt");
+            cases.push(Case::new(line, &t));
+        }
+        cases
+    }
+}
+
+/// Workload families. `clean`: tables created and checkpointed first, every transaction finished, checkpoints only
+/// between transactions, inserts/updates/deletes by autocommit, committed and rolled-back insert-only sessions, batches,
+/// failing statements. Each other family adds exactly one feature that is (or was) a known-finding region:
+///   open_txn      a session that is still open at the end (and while other units commit)
+///   rb_update     a rolled-back session containing UPDATE / DELETE
+///   no_init_ckpt  no checkpoint after the CREATE TABLEs (the log reaches back to table creation)
+///   drop_table    DROP TABLE and re-CREATE
+///   vacuum        VACUUM in the middle
+///   small_cache   a cache small enough to evict (steal) — cache=48
+fn gen_workload(rng: &mut Rng, _head: &str, idx: usize) -> (Vec<Op>, Vec<String>, usize) {
+    let family = match idx % 10 {
+        0..=3 => "clean",
+        4 => "open_txn",
+        5 => "rb_update",
+        6 => "no_init_ckpt",
+        7 => "drop_table",
+        8 => "vacuum",
+        _ => "small_cache",
+    };
+    let mut ops = Vec::new();
+    let mut tags: Vec<String> = vec![format!("0fam_{}", family)];
+    let ntables = 1 + rng.below(2) as usize;
+    let tables: Vec<String> = (1..=ntables).map(|i| format!("t{}", i)).collect();
+    for t in &tables {
+        ops.push(Op::Auto(Dml::Crt(t.clone())));
+    }
+    if family != "no_init_ckpt" {
+        ops.push(Op::Flush);
+    }
+    let mut next_id: BTreeMap<String, i64> = tables.iter().map(|t| (t.clone(), 1)).collect();
+    let mut live: BTreeMap<String, Vec<i64>> = tables.iter().map(|t| (t.clone(), vec![])).collect();
+    let long = idx % 4 == 0 || family == "small_cache";
+    let steps = 4 + rng.below(if long { 40 } else { 10 }) as usize;
+    let mut sess = 0u32;
+    let mut special_done = false;
+    for step in 0..steps {
+        let t = rng.pick(&tables).clone();
+        // the family's special feature, once, somewhere in the middle
+        if !special_done && step >= steps / 3 {
+            special_done = true;
+            match family {
+                "open_txn" => {
+                    sess += 1;
+                    ops.push(Op::SBegin(sess));
+                    for _ in 0..1 + rng.below(3) {
+                        let id = next_id[&t];
+                        *next_id.get_mut(&t).unwrap() += 1;
+                        ops.push(Op::SDml(sess, Dml::Ins(t.clone(), id, rng.range(0, 99))));
+                    }
+                    // never committed, never closed
+                    continue;
+                }
+                "rb_update" => {
+                    if !live[&t].is_empty() {
+                        sess += 1;
+                        ops.push(Op::SBegin(sess));
+                        let id = *rng.pick(&live[&t]);
+                        if rng.chance(1, 2) {
+                            ops.push(Op::SDml(sess, Dml::Upd(t.clone(), id, rng.range(3000, 4000))));
+                        } else {
+                            ops.push(Op::SDml(sess, Dml::Del(t.clone(), id)));
+                        }
+                        ops.push(Op::SRollback(sess));
+                    } else {
+                        special_done = false;
+                    }
+                    continue;
+                }
+                "drop_table" => {
+                    ops.push(Op::Auto(Dml::Drp(t.clone())));
+                    live.get_mut(&t).unwrap().clear();
+                    if rng.chance(2, 3) {
+                        ops.push(Op::Auto(Dml::Crt(t.clone())));
+                    } else {
+                        // keep using the other table only
+                        if tables.len() == 1 {
+                            ops.push(Op::Auto(Dml::Crt(t.clone())));
+                        }
+                    }
+                    continue;
+                }
+                "vacuum" => {
+                    ops.push(Op::Vacuum);
+                    continue;
+                }
+                _ => {}
+            }
+        }
+        if !hasTable(&ops, &t) {
+            continue;
+        }
+        match rng.below(12) {
+            0..=4 => {
+                let id = next_id[&t];
+                *next_id.get_mut(&t).unwrap() += 1;
+                ops.push(Op::Auto(Dml::Ins(t.clone(), id, rng.range(-50, 500))));
+                live.get_mut(&t).unwrap().push(id);
+                tags.push("auto_insert".into());
+            }
+            5 => {
+                if let Some(&id) = live[&t].first() {
+                    ops.push(Op::Auto(Dml::Del(t.clone(), id)));
+                    live.get_mut(&t).unwrap().remove(0);
+                    tags.push("auto_delete".into());
+                }
+            }
+            6 => {
+                if !live[&t].is_empty() {
+                    let id = *rng.pick(&live[&t]);
+                    ops.push(Op::Auto(Dml::Upd(t.clone(), id, rng.range(1000, 2000))));
+                    tags.push("auto_update".into());
+                }
+            }
+            7 => {
+                ops.push(Op::Flush);
+                tags.push("checkpoint".into());
+            }
+            8 => {
+                sess += 1;
+                ops.push(Op::SBegin(sess));
+                for _ in 0..1 + rng.below(3) {
+                    let id = next_id[&t];
+                    *next_id.get_mut(&t).unwrap() += 1;
+                    ops.push(Op::SDml(sess, Dml::Ins(t.clone(), id, rng.range(0, 99))));
+                    live.get_mut(&t).unwrap().push(id);
+                }
+                ops.push(Op::SCommit(sess));
+                tags.push("session_commit".into());
+            }
+            9 => {
+                sess += 1;
+                ops.push(Op::SBegin(sess));
+                for _ in 0..1 + rng.below(3) {
+                    let id = next_id[&t];
+                    *next_id.get_mut(&t).unwrap() += 1;
+                    ops.push(Op::SDml(sess, Dml::Ins(t.clone(), id, rng.range(0, 99))));
+                }
+                ops.push(Op::SRollback(sess));
+                tags.push("session_rollback".into());
+            }
+            10 => {
+                let mut ds = Vec::new();
+                for _ in 0..2 + rng.below(3) {
+                    let id = next_id[&t];
+                    *next_id.get_mut(&t).unwrap() += 1;
+                    ds.push(Dml::Ins(t.clone(), id, rng.range(0, 99)));
+                    live.get_mut(&t).unwrap().push(id);
+                }
+                ops.push(Op::Batch(ds));
+                tags.push("batch".into());
+            }
+            _ => {
+                ops.push(Op::Auto(Dml::Ins("nosuch".into(), 1, 1)));
+                tags.push("failed_stmt".into());
+            }
+        }
+    }
+    tags.sort();
+    tags.dedup();
+    let cache = if family == "small_cache" { 48 } else { 10000 };
+    (ops, tags, cache)
+}
+
+/// does table `t` exist after the (all successful) DDL of `ops`?
+#[allow(non_snake_case)]
+fn hasTable(ops: &[Op], t: &str) -> bool {
+    let mut exists = false;
+    for op in ops {
+        if let Op::Auto(Dml::Crt(x)) = op {
+            if x == t {
+                exists = true;
+            }
+        }
+        if let Op::Auto(Dml::Drp(x)) = op {
+            if x == t {
+                exists = false;
+            }
+        }
+    }
+    exists
 }
